@@ -13,7 +13,8 @@ LEVEL = "model_checking"
 CODE = ["yowsup/layers/__init__.py:YowLayer/YowProtocolLayer/YowParallelLayer", "yowsup/stacks/yowstack.py:YowStack/YowStackBuilder.getProtocolLayers",
         "every protocol_*/layer.py handler map and guard", "yowsup/layers/axolotl/layer_send.py:send/receive", "yowsup/layers/axolotl/layer_receive.py:receive/onMessage",
         "yowsup/layers/axolotl/layer_control.py:send/receive", "yowsup/layers/auth/layer_authentication.py"]
-BOUNDS = {"quick": "[+ 7 entity kinds after a failed send; 1-3 parked encrypted messages] " 
+BOUNDS = {"quick": "[+ 2 requests from 4 kinds x 2 replies; contentless text message with / without the placeholder child] " 
+                   "[+ 7 entity kinds after a failed send; 1-3 parked encrypted messages] " 
                    "[+ identity-change notification; no answer twice] " 
                    "[+ retry answers (content + sender key) among the encrypted incoming payloads] " 
                    "one stanza / entity per run, every kind of the catalogue, fields unconstrained; one request outstanding in any one layer with a registry (or none); encrypted incoming messages (1-2 envelopes); 5 request kinds answered during the send; module selections all, none, each single module off; with encryption layers",
